@@ -65,7 +65,7 @@ def run(chk):
             chk.sample({"what": what, "policy": big["meta"].get("policy"), "seed": big["meta"].get("seed"), "ops": big["ops"][:10]})
 
     # hot = 1: the environment offers requests on one key only (Puts overwrite each other, every Get sees the outcome)
-    plans = [(3, 3, 1, 4, 1200, 2, 0), (3, 3, 1, 6, 1500, 2, 1)] if quick else [
+    plans = [(3, 3, 1, 12, 1200, 2, 0), (3, 3, 1, 24, 1500, 2, 1)] if quick else [
         (3, 3, 1, 30, 2000, 2, 0), (3, 3, 1, 40, 2500, 2, 1), (3, 2, 1, 30, 2000, 3, 1), (5, 3, 2, 16, 2500, 2, 1), (2, 2, 0, 16, 1200, 2, 1), (1, 2, 0, 6, 400, 2, 0)]
     for (n, clients, maxfail, runs, steps, strings, hot) in plans:
         args = "fifo=1,clients=%d,maxfail=%d,fail=%d,buffer=3,strings=%d,hotkey=%d" % (clients, maxfail, 1 if maxfail else 0, strings, hot)
